@@ -23,6 +23,7 @@ package gjkr
 //
 //	share "ok"      ciphertext of (f(j), g(j)) under ECDH(sender->j, j->sender)
 //	share "bad"     ciphertext of (f(j)+1, g(j)) under the same key
+//	share "badt"    ciphertext of (f(j), g(j)+1) under the same key
 //	share "undec"   random bytes
 //	share "absent"  no map entry
 //	commits "ok"    T+1 Pedersen commitments to f/g; "wrong": the last one dropped
@@ -440,6 +441,12 @@ func (r *vrun) buildAdv(c int, m kit.V) (net.TaggedMarshaler, error) {
 				s := new(big.Int).Add(polyEval(am.f, j), big.NewInt(1))
 				s.Mod(s, bn256.Order)
 				if err := msg.addShares(group.MemberIndex(j), s, polyEval(am.g, j), r.symKey(c, j)); err != nil {
+					return nil, err
+				}
+			case "badt":
+				tt := new(big.Int).Add(polyEval(am.g, j), big.NewInt(1))
+				tt.Mod(tt, bn256.Order)
+				if err := msg.addShares(group.MemberIndex(j), polyEval(am.f, j), tt, r.symKey(c, j)); err != nil {
 					return nil, err
 				}
 			case "undec":
